@@ -128,6 +128,20 @@ func genC15(e *emitter, tier string) {
 					e.emit(gateCase(name, dts))
 				}
 			}
+			// an omitted optional input next to every dtype at every other position (before and behind it)
+			for q := min; q < n; q++ {
+				for p := 0; p < n; p++ {
+					if p == q {
+						continue
+					}
+					for _, d := range allDts {
+						dts := append([]*string{}, base...)
+						dts[q] = nil
+						dts[p] = sp(d)
+						e.emit(gateCase(name, dts))
+					}
+				}
+			}
 			// two-position dtype combinations on a sample: all equal to each dtype
 			if n >= 2 {
 				for _, d := range allDts {
